@@ -7,6 +7,19 @@ from concurrent.futures import ThreadPoolExecutor
 V = os.path.dirname(os.path.dirname(os.path.abspath(__file__)))
 ALL = [c["property_id"] for c in json.load(open(os.path.join(V, "MANIFEST.json")))["checks"]]
 
+CHECK_TIMEOUT = 1200      # seconds per check: a runaway analysis is reported, not waited for
+
+
+def _run_check(cmd, **kw):
+    try:
+        return subprocess.run(cmd, **kw)
+    except subprocess.TimeoutExpired:
+        class _R:
+            returncode = 124
+            stdout = "ANALYSIS-BROKEN: the check did not finish within %d s\n" % CHECK_TIMEOUT
+            stderr = ""
+        return _R()
+
 
 def one(d):
     sid = os.path.basename(d)
@@ -22,7 +35,7 @@ def one(d):
                    FSVERIF_EVIDENCE=os.path.join(tmp, "evidence"))
         res = {}
         for c in ALL:
-            r = subprocess.run([os.path.join(V, "check"), c], capture_output=True, text=True, env=env, cwd=V)
+            r = _run_check([os.path.join(V, "check"), c], capture_output=True, text=True, env=env, cwd=V, timeout=CHECK_TIMEOUT)
             first = [l for l in r.stdout.splitlines() if l.startswith("  rule") or l.startswith("ANALYSIS")]
             res[c] = {"exit": r.returncode, "first": first[0][:260] if first else ""}
         return sid, res, ""
